@@ -266,6 +266,48 @@ func init() {
 				})
 			})
 		}
+		// size families: deep chains (with a trailing sibling per level) and many flat roots, every 7th stop position
+		maxD := 40
+		if c.Thorough() {
+			maxD = 120
+		}
+		for depth := 1; depth <= maxD && !c.Expired(); depth++ {
+			if !c.Take() {
+				continue
+			}
+			var d []int
+			var nm []string
+			for l := 1; l <= depth; l++ {
+				d = append(d, l)
+				nm = append(nm, fmt.Sprintf("n%d", l))
+			}
+			for l := depth; l >= 2; l-- {
+				d = append(d, l)
+				nm = append(nm, fmt.Sprintf("s%d", l))
+			}
+			f := enum.Build(d, nm)
+			doc := enum.Spell(d, nm, enum.Canonical)
+			c.StateN(1)
+			for stop := 0; stop <= len(d)+1; stop += 7 {
+				c05Judge(c, "md", doc, f, model.DefaultFmt, stop)
+				c05Judge(c, "root", doc, f, fmtTuples[1], stop)
+				c05Judge(c, "iter", doc, f, model.DefaultFmt, stop)
+			}
+		}
+		for r := 2; r <= 70 && !c.Expired(); r += 1 {
+			if !c.Take() {
+				continue
+			}
+			var d []int
+			var nm []string
+			for i := 0; i < r; i++ {
+				d = append(d, 1, 2)
+				nm = append(nm, fmt.Sprintf("root%03d", i), "kid")
+			}
+			c.StateN(1)
+			c05Judge(c, "md", enum.Spell(d, nm, enum.Canonical), enum.Build(d, nm), model.DefaultFmt, 0)
+			c05Judge(c, "md", enum.Spell(d, nm, enum.Canonical), enum.Build(d, nm), model.DefaultFmt, 2*r-1)
+		}
 		// text output lines == rows (same options), on a hostile-name slice
 		for n := 1; n <= 3; n++ {
 			enum.DepthSeqs(n, func(d []int) {
